@@ -10,6 +10,7 @@ import BurrowVerif.Proofs.Tmpl
 import BurrowVerif.Proofs.TmplData
 import BurrowVerif.Model.Json
 import BurrowVerif.Proofs.TmplDataJson
+import BurrowVerif.Proofs.TmplDataFloats
 
 namespace Burrow.Props.C20
 open Burrow Burrow.Tmpl Burrow.Spec.Tmpl Burrow.Generated
@@ -132,6 +133,49 @@ theorem every_status_renders_json (meets : Nat → Nat → Bool) (now : Int) (al
     (Proofs.TmplData.dataTy o _ (notifier_view_meets_invariant meets now allowed topics g h))
     (Proofs.TmplData.dataSafe o _ hsafe)
 
+/-- the evaluator's float32 division as emulated bit for bit (`F32.divBits`, compared with the real
+    division on every evaluation of the `eval` stream) -/
+def divOpaque (obs : Commit → Int) : Opaque := ⟨fun x => F32.divBits x.1 x.2, obs⟩
+
+/-- … and with that division the float hypothesis is discharged: for windows and partition counts
+    below 2^24, JSON-safe NAMES alone make every HTTP and Slack payload well-formed JSON. -/
+theorem every_status_renders_json_names_only (meets : Nat → Nat → Bool) (now : Int) (allowed : Nat)
+    (topics : List (String × List Eval.Partition)) (g : Group.GroupStatus)
+    (h : Group.evaluateGroup meets now allowed topics = some g)
+    (hsz : ∀ tp ∈ topics, ∀ p ∈ tp.2, p.offsets.length < 2^24) (hcount : g.totalPartitions < 2^24)
+    (obs : Commit → Int) (id cluster group : String) (start : Int) (extras : List (String × String)) (env : Env)
+    (henv : EnvOk env)
+    (hid : safeStr id = true) (hcl : safeStr cluster = true) (hgr : safeStr group = true)
+    (hex : ∀ kv ∈ extras, safeStr kv.2 = true)
+    (hparts : ∀ p ∈ g.partitions, Proofs.TmplData.SafePart p) :
+    ∀ nt ∈ jsonTemplates, ∃ out,
+      exec (refine dataSchema) env nt.2
+        (dataVal (divOpaque obs) { id, start, extras, cluster, group, result := Group.filterView g }) = .ok out ∧
+      Json.valid out = true := by
+  obtain ⟨hc, hp, hm⟩ := Proofs.TmplData.evaluateGroup_pairs meets now allowed topics g hsz h hcount
+  have hmax : ∀ p, g.maxlag = some p → p ∈ g.partitions := by
+    intro p hp'
+    unfold Group.evaluateGroup at h
+    cases h1 : Group.evalTopics meets now allowed topics with
+    | none => simp [h1] at h
+    | some ps =>
+      simp [h1] at h; subst h
+      rcases Proofs.TmplData.maxlag_mem ps none p hp' with hm' | hm'
+      · exact hm'
+      · cases hm'
+  refine every_status_renders_json meets now allowed topics g h (divOpaque obs) id cluster group start extras env henv
+    { id := hid, cluster := hcl, group := hgr, extras := hex,
+      parts := ?_, maxlag := ?_, floats := ⟨?_, ?_, ?_⟩ }
+  · intro p hp'
+    exact hparts p (List.mem_filter.mp hp').1
+  · intro p hp'
+    exact hparts p (hmax p hp')
+  · exact Proofs.TmplData.pairOk_finite hc
+  · intro p hp'
+    exact Proofs.TmplData.pairOk_finite (hp p (List.mem_filter.mp hp').1)
+  · intro p hp'
+    exact Proofs.TmplData.pairOk_finite (hm p hp')
+
 /-- The flow analysis is not a rubber stamp: a hole outside a string that prints a name is refused … -/
 example : jsonOk (refine dataSchema)
     (.text "{\"group\":" (.action [.field [] "Group" []] (.text "}" .done))) dataType = false := by decide
@@ -166,7 +210,7 @@ example : Proofs.TmplData.SafeNotification ⟨fun _ => 0, fun _ => 0⟩ sampleNo
     subst hp
     exact ⟨by decide, by decide, by decide⟩
   maxlag := by intro p hp; simp [sampleNotification] at hp
-  floats := fun _ => by show finite32 0 = true; decide
+  floats := ⟨by decide, by intro p _; show finite32 0 = true; decide, by intro p _; show finite32 0 = true; decide⟩
 
 /-- … non-vacuity: it meets the invariant, so it inhabits the refined type, and the first shipped
     template renders on it. -/
